@@ -28,6 +28,103 @@ type Driver struct {
 	// Inconclusive counts fair phases given up because the simulated operator started a
 	// replica with a kind that contradicts the membership (not a fault the property covers)
 	Inconclusive bool
+	// DownOne: before the fault-free phase one voting member is taken down (it neither
+	// ticks nor receives) such that every membership view held by a running replica keeps
+	// a majority among the replicas that stay up; Down is the result (empty: no such
+	// replica, or a membership change is still pending, then the phase runs as usual)
+	DownOne bool
+	Down    map[uint64]bool
+}
+
+// pickDown chooses the replica to take down for the DownOne variant (0 = none).
+func (d *Driver) pickDown() uint64 {
+	c := d.C
+	var best *Node
+	for _, id := range c.ids() {
+		if n := c.Nodes[id]; best == nil || n.Applied > best.Applied {
+			best = n
+		}
+	}
+	if best == nil || len(best.Mem.Voters) == 0 {
+		return 0
+	}
+	// no membership change beyond what the most advanced replica has applied
+	for _, id := range c.ids() {
+		for _, e := range Inspect(c.Nodes[id]).Entries {
+			if e.Type == pb.ConfigChangeEntry && e.Index > best.Applied {
+				return 0
+			}
+		}
+	}
+	type view struct{ voting map[uint64]bool }
+	var views []view
+	add := func(m *Membership) {
+		v := view{voting: map[uint64]bool{}}
+		for k := range m.Voters {
+			v.voting[k] = true
+		}
+		for k := range m.Witnesses {
+			v.voting[k] = true
+		}
+		if len(v.voting) > 0 {
+			views = append(views, v)
+		}
+	}
+	for _, id := range c.ids() {
+		add(&c.Nodes[id].Mem)
+	}
+	// every member of the newest view must be running (the phase does not start replicas here)
+	for k := range views[0].voting {
+		_ = k
+	}
+	for k := range best.Mem.Voters {
+		if _, ok := c.Nodes[k]; !ok {
+			return 0
+		}
+	}
+	for k := range best.Mem.Witnesses {
+		if _, ok := c.Nodes[k]; !ok {
+			return 0
+		}
+	}
+	ok := func(victim uint64) bool {
+		for _, v := range views {
+			up := 0
+			for k := range v.voting {
+				if _, running := c.Nodes[k]; running && k != victim {
+					up++
+				}
+			}
+			if up < len(v.voting)/2+1 {
+				return false
+			}
+		}
+		return true
+	}
+	// prefer the current leader, then the voters in order
+	var cands []uint64
+	maxTerm := uint64(0)
+	for _, id := range c.ids() {
+		if st := Inspect(c.Nodes[id]); st.Term > maxTerm {
+			maxTerm = st.Term
+		}
+	}
+	for _, id := range c.ids() {
+		if st := Inspect(c.Nodes[id]); st.Role == 3 && st.Term == maxTerm && best.Mem.Voters[id] {
+			cands = append(cands, id)
+		}
+	}
+	for _, id := range c.ids() {
+		if best.Mem.Voters[id] {
+			cands = append(cands, id)
+		}
+	}
+	for _, v := range cands {
+		if ok(v) {
+			return v
+		}
+	}
+	return 0
 }
 
 // Do executes one operation.
@@ -163,6 +260,12 @@ func sortedKeys(m map[uint64]bool) []uint64 {
 func (d *Driver) FairPhase(rounds int) string {
 	c := d.C
 	d.Pool = nil
+	d.Down = map[uint64]bool{}
+	if d.DownOne {
+		if v := d.pickDown(); v != 0 {
+			d.Down[v] = true
+		}
+	}
 	d.ForceRT = func(n *Node) (uint64, bool) {
 		st := Inspect(n)
 		// deterministic stand-in for the random draw: a hash of (replica, term), so that a
@@ -214,7 +317,7 @@ func (d *Driver) FairPhase(rounds int) string {
 		}
 		sort.Slice(ids, func(i, j int) bool { return ids[i] < ids[j] })
 		for _, id := range ids {
-			if _, ok := c.Nodes[id]; !ok {
+			if _, ok := c.Nodes[id]; !ok && !d.Down[id] {
 				kind := members[id]
 				// a voter that some replica (or snapshot) still knows as non-voting was started as
 				// a non-voting replica and promoted later
@@ -236,6 +339,9 @@ func (d *Driver) FairPhase(rounds int) string {
 			if d.Stopped {
 				break
 			}
+			if d.Down[id] {
+				continue
+			}
 			d.Do(fmt.Sprintf("T %d", id))
 			if !d.Stopped {
 				d.Update(id)
@@ -249,7 +355,14 @@ func (d *Driver) FairPhase(rounds int) string {
 			copy(d.Pool, d.Pool[1:])
 			d.Pool = d.Pool[:len(d.Pool)-1]
 			d.Pool = append(d.Pool, m) // Deliver removes index len-1 cheaply
-			d.Deliver(len(d.Pool)-1, false, false, nil)
+			// a message to the replica that is down is lost (the transport reports the fate of a snapshot)
+			d.Deliver(len(d.Pool)-1, false, d.Down[m.To], nil)
+			if d.Down[m.To] {
+				if _, ok := c.Nodes[m.From]; ok && !d.Stopped && m.Type == pb.InstallSnapshot {
+					d.Update(m.From)
+				}
+				continue
+			}
 			if d.Stopped {
 				break
 			}
@@ -277,6 +390,15 @@ func (d *Driver) FairPhase(rounds int) string {
 		// progress?
 		var leader *Node
 		maxTerm := uint64(0)
+		{
+			var up []uint64
+			for _, id := range ids {
+				if !d.Down[id] {
+					up = append(up, id)
+				}
+			}
+			ids = up
+		}
 		for _, id := range ids {
 			if st := Inspect(c.Nodes[id]); st.Term > maxTerm {
 				maxTerm = st.Term
@@ -336,7 +458,64 @@ func (d *Driver) FairPhase(rounds int) string {
 		st := Inspect(c.Nodes[id])
 		desc += fmt.Sprintf(" [n%d %c role=%d term=%d comm=%d last=%d appl=%d]", id, c.Nodes[id].Kind, st.Role, st.Term, st.Committed, st.LastIndex, c.Nodes[id].Applied)
 	}
-	return fmt.Sprintf("no leader+commit+catch-up within %d fault-free rounds:%s", rounds, desc)
+	down := ""
+	for k := range d.Down {
+		down = fmt.Sprintf(" with replica %d down", k)
+	}
+	// a witness holds (the metadata of) an entry that no running full replica has: no running
+	// replica can both win the witness's vote and serve the entry; nothing moves until the
+	// replica that is down returns (tagged so that the known finding matches only this)
+	maxVoter, maxWitness := uint64(0), uint64(0)
+	for _, id := range d.C.ids() {
+		if d.Down[id] {
+			continue
+		}
+		st := Inspect(c.Nodes[id])
+		if c.Nodes[id].Kind == 'W' {
+			if st.LastIndex > maxWitness {
+				maxWitness = st.LastIndex
+			}
+		} else if c.Nodes[id].Kind == 'V' && st.LastIndex > maxVoter {
+			maxVoter = st.LastIndex
+		}
+	}
+	if len(d.Down) > 0 && maxWitness > maxVoter {
+		down = " witness-ahead-no-electable-voter" + down
+	}
+	// a replica that applied its own removal (and stepped down) holds a longer log than every
+	// remaining voter, and a remaining voter has not learned that the removal committed: it
+	// still needs the removed replica's vote, which is refused (log not up to date), and the
+	// removed replica never campaigns
+	{
+		var best *Node
+		for _, id := range d.C.ids() {
+			if n := c.Nodes[id]; best == nil || n.Applied > best.Applied {
+				best = n
+			}
+		}
+		if best != nil {
+			maxMember, maxRemoved, stale := uint64(0), uint64(0), false
+			for _, id := range d.C.ids() {
+				st := Inspect(c.Nodes[id])
+				if best.Mem.Voters[id] {
+					if st.LastIndex > maxMember {
+						maxMember = st.LastIndex
+					}
+					for k := range c.Nodes[id].Mem.Voters {
+						if !best.Mem.Voters[k] && best.Mem.Removed[k] {
+							stale = true
+						}
+					}
+				} else if best.Mem.Removed[id] && st.LastIndex > maxRemoved {
+					maxRemoved = st.LastIndex
+				}
+			}
+			if stale && maxRemoved > maxMember {
+				down = " removed-replica-ahead-of-remaining-voters" + down
+			}
+		}
+	}
+	return fmt.Sprintf("no leader+commit+catch-up within %d fault-free rounds%s:%s", rounds, down, desc)
 }
 
 func (c *Cluster) ids() []uint64 {
